@@ -318,6 +318,19 @@ def reqTopOK : JVal → Bool
     (if ty = some (.str kToolResult) then hasArr kvs else true)
   | _ => true
 
+/-- every embedded resource of a content block (and of the blocks nested in it) is `resourceOK` -/
+partial def embeddedOK : JVal → Bool
+  | .obj kvs =>
+    (match lookup wireContent_Type_name kvs, lookup wireContent_Resource_name kvs with
+      | some (.str ty), some r => if ty = kResource then resourceOK r else true
+      | _, _ => true) &&
+    (match lookup wireContent_NestedContent_name kvs with
+      | some (.arr l) => l.all embeddedOK
+      | _ => true)
+  | _ => true
+
+def f23Clause : String := "required_members_present: resource contents carry neither text nor blob (F23)"
+
 /-! ## contexts in which content is decoded -/
 
 inductive Shape where | one | list | oneOrMany
@@ -600,11 +613,28 @@ def stepWire (d : DState) (toks : List String) (impl : String) : DState × Verdi
         if d.pid != "C19" then none else
         match pJ itoks with
         | some (ji, []) =>
-          if reqOK ji then none
+          if reqOK ji then (if embeddedOK ji then none else some (pfx d f23Clause))
           else if reqTopOK ji then some (pfx d "required_members_present: a block nested in tool_result lacks its required text/data member (F8)")
           else some (pfx d "required_members_present: content block lacks a required member")
         | _ => some (pfx d "required_members_present: content did not marshal")
       (d, { model := showJ j, violated := viol })
+    | _ => bad d
+  | "c.res" :: r =>
+    -- json.Marshal(&ResourceContents{…}); blob: "-" nil, else the base64 text of a non-nil slice
+    match (do
+        let (u, r) ← pStr r; let (mi, r) ← pStr r; let (t, r) ← pStr r
+        let (b, r) ← (match r with
+          | "-" :: r => some (none, r)
+          | r => (pStr r).map (fun (x, r) => (some x, r)) : Option (Option Bytes × List String))
+        let (m, r) ← pMeta r
+        some (u, mi, t, b, m, r) : Option (Bytes × Bytes × Bytes × Option Bytes × Meta × List String)) with
+    | some (u, mi, t, b, m, []) =>
+      let viol :=
+        if d.pid != "C19" then none else
+        match pJ itoks with
+        | some (ji, []) => if resourceOK ji then none else some (pfx d f23Clause)
+        | _ => some (pfx d "required_members_present: resource contents did not marshal")
+      (d, { model := showJ (encodeResource u mi t b m), violated := viol })
     | _ => bad d
   | "c.rt" :: ctx :: r =>
     match ctxOf ctx, pCList r with
@@ -661,6 +691,9 @@ def stepWire (d : DState) (toks : List String) (impl : String) : DState × Verdi
             if d.pid == "C19" && !isArrJ cur then
               some (pfx d s!"required_members_present: required list member of the {method} result is null or missing" ++
                 (if k == .getPrompt || k == .complete then " (F15)" else ""))
+            else if d.pid == "C19" && k == .readResource &&
+                (match cur with | some (.arr l) => !l.all resourceOK | _ => false) then
+              some (pfx d f23Clause)
             else none
           (d, { model := model, violated := viol })
         | _ => (d, { model := "result", violated := some (pfx d "required_members_present: no result") })
